@@ -107,6 +107,10 @@ func (c *Client) Do(req *http.Request) (resp *http.Response, err error) {
 		return resp, err
 	}
 	if respUnauthorizedNegotiate(resp) {
+		if strings.HasPrefix(req.Header.Get(HTTPHeaderAuthRequest), HTTPHeaderAuthResponseValueKey+" ") {
+			// This request already carried a negotiation token and the server still asks for one: give the response to the caller
+			return resp, err
+		}
 		err := SetSPNEGOHeader(c.krb5Client, req, c.spn)
 		if err != nil {
 			return resp, err
